@@ -788,6 +788,14 @@ fn enumerate_schemas_base(thorough: bool) -> Vec<Schema> {
             }
         }
     }
+    // field indices over the whole u32 range (map encoding only: in array encoding the index is a position). The index
+    // is written as an unsigned integer of its own width; 2^31 and the top of the range are where a narrower or a
+    // signed intermediate type shows
+    for x in [65535u32, 65536, 0x7fff_ffff, 0x8000_0000, 0xfffe_ffff, 0xffff_0000, 0xffff_fffe, 0xffff_ffff] {
+        b.st("G-idx", Shape::Named, Some(Enc::Map), None, vec![fld(x, FTy::U8)]);
+        b.st("G-idx", Shape::Named, Some(Enc::Map), None, vec![fld(1, FTy::OptU8), fld(x, FTy::OptU8)]);
+        b.st("G-idx", Shape::Tuple, Some(Enc::Map), None, vec![fld(x, FTy::U8), fld(0, FTy::U8)]);
+    }
     if thorough {
         // all permutations of three fields, mixed optionality, four fields
         for set in subsets(&base, 3) {
@@ -935,7 +943,7 @@ fn enumerate_schemas_base(thorough: bool) -> Vec<Schema> {
         let shuffled_io: Vec<VariantS> = [7u32, 0, 300, 3].iter().map(|i| VariantS { idx: *i, shape: Shape::Unit, enc: None, tag: None, fields: vec![] }).collect();
         b.push("G-enum", false, Kind::Enum(EnumS { enc: eenc, tag: None, index_only: true, variants: shuffled_io }));
         // variant indices on both sides of every head-width boundary
-        let wide: Vec<VariantS> = [23u32, 24, 255, 256, 65535, 65536]
+        let wide: Vec<VariantS> = [23u32, 24, 255, 256, 65535, 65536, 0x7fff_ffff, 0x8000_0000, 0xfffe_ffff, 0xffff_0000, 0xffff_fffe, 0xffff_ffff]
             .iter()
             .enumerate()
             .map(|(k, i)| match k % 3 {
@@ -945,7 +953,7 @@ fn enumerate_schemas_base(thorough: bool) -> Vec<Schema> {
             })
             .collect();
         b.push("G-enum", false, Kind::Enum(EnumS { enc: eenc, tag: None, index_only: false, variants: wide }));
-        let wide_io: Vec<VariantS> = [23u32, 24, 255, 256, 65535, 65536].iter().map(|i| VariantS { idx: *i, shape: Shape::Unit, enc: None, tag: None, fields: vec![] }).collect();
+        let wide_io: Vec<VariantS> = [23u32, 24, 255, 256, 65535, 65536, 0x7fff_ffff, 0x8000_0000, 0xfffe_ffff, 0xffff_0000, 0xffff_fffe, 0xffff_ffff].iter().map(|i| VariantS { idx: *i, shape: Shape::Unit, enc: None, tag: None, fields: vec![] }).collect();
         b.push("G-enum", false, Kind::Enum(EnumS { enc: eenc, tag: None, index_only: true, variants: wide_io }));
     }
 
